@@ -44,7 +44,103 @@ class Obj:
 
     @property
     def term(self):
-        return sym(self.name)
+        # a rule may give an abstract record a value ("$value"): arithmetic, comparisons and embedding into
+        # terms then use that value instead of the opaque name
+        v = self.__dict__["attrs"].get("$value")
+        return sym(self.name) if v is None else v
+
+
+class Ent(Obj):
+    """Abstract record with identity (an index, a node, a key object): ``==``, ``is``, ``in`` and dictionary lookups
+    against other concrete values are decided by identity instead of becoming symbolic comparisons."""
+
+
+class Atom(Obj):
+    """Abstract record with *concrete identity* (an element of a small finite model chosen by the rule, e.g. one
+    orbital index): two Atoms are equal iff they are the same object, so ``==`` / ``is`` / ``in`` against concrete
+    values and containers are decided by the evaluator instead of becoming symbolic comparisons of record names.
+    The hash is the creation serial, which keeps set/dict iteration order deterministic.  An Atom with a true
+    ``_scalar`` attribute is not iterable (iterating/unpacking it raises TypeError like a sympy expression)."""
+    _serial = 0
+
+    def __init__(self, cls=None, name=None, **attrs):
+        super().__init__(cls, name, **attrs)
+        Atom._serial += 1
+        self.__dict__["serial"] = Atom._serial
+
+    def __hash__(self):
+        return self.__dict__["serial"]
+
+
+class Rec:
+    """Concrete abstract record with *value* semantics, supplied by a rule.
+
+    Unlike ``Obj`` a record never turns into a term: equality is identity, it is
+    hashable, so membership tests, ``Counter``, sets and dict keys over records
+    stay concrete (no fork per comparison).  Attributes are the given ``attrs``;
+    methods/properties of ``cls`` ("module:Class") resolve like for ``Obj``;
+    ``classes`` are the short class names ``isinstance`` accepts in addition.
+    Any rule-side class may take part through the same duck-typed protocol
+    (``sx_getattr(sx, attr, node)``, ``sx_isinstance(sx, cname)``,
+    ``sx_setattr(attr, value)``, ``sx_term()``, ``sx_str(sx)``)."""
+
+    def __init__(self, cls=None, label=None, classes=(), /, **attrs):
+        self.cls = cls
+        self.label = label or (cls or "rec")
+        self.classes = tuple(classes)
+        self.attrs = dict(attrs)
+
+    def __repr__(self):
+        return f"<{self.label}>"
+
+    def __deepcopy__(self, memo):
+        return self
+
+    def sx_term(self):
+        return sym(self.label)
+
+    def sx_setattr(self, attr, value):
+        self.attrs[attr] = value
+
+    def sx_str(self, sx):
+        """str(record) / f"{record}": the class's own __str__, evaluated (None if it has none)."""
+        m = sx.find_method(self.cls, "__str__") if self.cls else None
+        if m is None:
+            return None
+        r = sx._invoke(Func(m[0], [], m[0]._module, m[0]._qual, bound=self), [], {}, None)
+        return r if isinstance(r, str) else None
+
+    def sx_isinstance(self, sx, cname):
+        if cname in self.classes:
+            return True
+        if self.cls:
+            return cname == self.cls.split(":")[-1].split(".")[-1] or cname in sx._bases(self.cls)
+        return False
+
+    def sx_getattr(self, sx, attr, node):
+        if attr in self.attrs:
+            return self.attrs[attr]
+        m = sx.find_method(self.cls, attr) if self.cls else None
+        if m is not None:
+            fn, _ = m
+            decos = [U(d).split(".")[-1].split("(")[0] for d in fn.decorator_list]
+            f = Func(fn, [], fn._module, fn._qual, bound=self)
+            if "property" in decos or "cached_property" in decos:
+                hk = ".".join(fn._qual.split(".")[-2:])
+                if hk in sx.hooks and callable(sx.hooks[hk]):
+                    return sx.hooks[hk](sx, [self], {})
+                if sx.inline(f"{fn._module.name}:{fn._qual}"):
+                    return sx._invoke(f, [], {}, node)
+                return T("attr", self.sx_term(), attr)
+            if "staticmethod" in decos:
+                f.bound = None
+            return f
+        if self.cls:
+            mod, _, q = self.cls.partition(":")
+            m = sx.model.modules.get(mod)
+            if m is not None and q in m.classes:
+                return sx.getattr(ClassRef(m, q), attr, node)
+        sx.unsupported(node, f"attribute {attr} of the record {self.label} is not modelled")
 
 
 class Func:
@@ -134,10 +230,16 @@ _PYCMP = {"==": operator.eq, "!=": operator.ne, "<": operator.lt, "<=": operator
           ">=": operator.ge}
 _NEGATIVE = {"!=": "==", "not in": "in", "is not": "is"}
 _NOISE_RECEIVERS = {"logger", "logging", "warnings"}
+_MAYBE_NONE = {"sym", "call", "mcall", "attr", "item", "elem", "ite", "slice", "binop"}
 
 
 def _is_sym(v):
     return isinstance(v, T)
+
+
+def _subterms(t):
+    from .terms import subterms
+    return subterms(t)
 
 
 def _has_sym(v, depth=3):
@@ -159,7 +261,7 @@ class Symex:
 
     def __init__(self, model, inline=None, hooks=None, unroll=2, max_paths=512, max_steps=200000, what="?",
                  assume_asserts=True, isinstance_hook=None, attr_hook=None, max_depth=12, cut_loops=False,
-                 obj_identity=False):
+                 oracle=None, occurrence=None, recursion_error=False, normalize=None, obj_identity=False):
         self.model = model
         self.inline = inline or (lambda q: False)
         self.hooks = dict(hooks or {})
@@ -172,6 +274,15 @@ class Symex:
         self.attr_hook = attr_hook
         self.max_depth = max_depth
         self.cut_loops = cut_loops
+        # optional model of the uninterpreted vocabulary: oracle(sx, atom) -> True | False | None decides an atom
+        # (recorded on the path, no fork); None leaves the atom to decision replay
+        self.oracle = oracle
+        # occurrence(name) -> True: results of these uninterpreted calls are tagged with the number of the call
+        # event (T("occ", term, k)), so that a value computed once and used twice is distinguishable from two calls
+        self.occurrence = occurrence
+        self.recursion_error = recursion_error  # exceeding max_depth is the analysed program's RecursionError
+        self.normalize = normalize          # callable(term) -> term applied to results of symbolic arithmetic
+        self.inplace = False                # True while an augmented assignment is evaluated
         # obj_identity: abstract records (Obj) are concrete individuals - ``is``/``==``/``in`` between a record and
         # another record, None or a plain value are decided by identity instead of becoming symbolic atoms
         self.obj_identity = obj_identity
@@ -264,6 +375,11 @@ class Symex:
         return bool(v)
 
     def _decide(self, c):
+        if self.occurrence is not None:
+            from .terms import strip_occ
+            c = strip_occ(c)
+            if not isinstance(c, T):
+                return bool(c)
         if c.op == "not":
             return not self.truth(c.args[0])
         if c.op == "and":
@@ -284,6 +400,10 @@ class Symex:
             pol = False
         if c in self.facts:
             d = self.facts[c]
+        elif self.oracle is not None and (r := self.oracle(self, c)) is not None:
+            d = bool(r)
+            self.facts[c] = d
+            self.path.append((c, d))
         else:
             k = len(self.decisions)
             d = self.prefix[k] if k < len(self.prefix) else True
@@ -357,7 +477,12 @@ class Symex:
             if isinstance(cur, set) and isinstance(s.op, (ast.BitOr,)):
                 cur.update(v)
                 return
-            self.assign(s.target, self.binop(s.op, cur, v, s))
+            self.inplace = True         # visible to rule-defined arithmetic ("$binop"): `x op= y`
+            try:
+                r = self.binop(s.op, cur, v, s)
+            finally:
+                self.inplace = False
+            self.assign(s.target, r)
         elif isinstance(s, ast.Assert):
             c = self.ev(s.test)
             if isinstance(c, T) and self.assume_asserts:
@@ -375,9 +500,13 @@ class Symex:
         elif isinstance(s, ast.While):
             n = 0
             broke = False
-            while self.truth(self.ev(s.test), s.test):
+            while True:
+                c = self.ev(s.test)
+                if not self.truth(c, s.test):
+                    break
                 n += 1
-                if n > 64:
+                # a concrete, non-constant condition (a scan over a concrete string/list) gets the bound of for-loops
+                if n > (64 if isinstance(c, T) or isinstance(s.test, ast.Constant) or self.cut_loops else 4096):
                     if self.cut_loops:
                         raise _Cut()
                     self.unsupported(s, "while bound exceeded")
@@ -479,6 +608,8 @@ class Symex:
             return it if isinstance(it, list) else list(it)
         if isinstance(it, T):
             return [T("elem", it, k) for k in range(self.unroll)]
+        if isinstance(it, Atom) and it.attrs.get("_scalar"):
+            raise Raised("TypeError", f"{it!r} is not iterable", node)
         if isinstance(it, Obj):
             return [T("elem", it.term, k) for k in range(self.unroll)]
         self.unsupported(node, f"iteration over {type(it).__name__}")
@@ -521,6 +652,8 @@ class Symex:
                     self.unsupported(t, "starred unpacking of a term")
                 vs = [T("item", v, i) for i in range(len(t.elts))]
             else:
+                if v is None:
+                    raise Raised("TypeError", "cannot unpack None", t)
                 try:
                     vs = list(v)
                 except TypeError:
@@ -540,7 +673,17 @@ class Symex:
                 self.assign(e, x)
         elif isinstance(t, ast.Subscript):
             obj = self.ev(t.value)
-            k = self.ev(t.slice) if not isinstance(t.slice, ast.Slice) else self.unsupported(t, "slice store")
+            if isinstance(t.slice, ast.Slice):
+                # ``lst[a:b] = values`` on a concrete list with concrete bounds
+                lo, hi, st = (self.ev(x) if x is not None else None for x in (t.slice.lower, t.slice.upper, t.slice.step))
+                if isinstance(obj, list) and not any(isinstance(x, T) for x in (lo, hi, st)):
+                    try:
+                        obj[lo:hi:st] = list(self.iterate(v, t))
+                    except (TypeError, ValueError):
+                        self.unsupported(t, "slice store")
+                    return
+                self.unsupported(t, "slice store")
+            k = self.ev(t.slice)
             if isinstance(obj, (dict, list)):
                 try:
                     obj[k] = v
@@ -558,6 +701,8 @@ class Symex:
                 self.effects.append(T("setattr", obj, t.attr, v))
             elif isinstance(obj, Func):
                 pass    # metadata of a function object (__doc__, __name__) does not influence its evaluation
+            elif hasattr(obj, "sx_setattr"):
+                obj.sx_setattr(t.attr, v)
             else:
                 self.unsupported(t)
         else:
@@ -643,6 +788,34 @@ class Symex:
 
     # ------------------------------------------------------------ expressions
     def binop(self, op, a, b, node):
+        # optional model of operators on abstract records: ``sx.binop_hook(sx, op, a, b, node)`` (node is the
+        # AugAssign statement for in-place operators); NotImplemented falls through to the generic term arithmetic
+        h = getattr(self, "binop_hook", None)
+        if h is not None:
+            r = h(self, op, a, b, node)
+            if r is not NotImplemented:
+                return r
+        # abstract records may define their own arithmetic: attrs["$binop"](sx, op, left, right, node)
+        for x in (a, b):
+            if isinstance(x, Obj) and callable(x.attrs.get("$binop")):
+                r = x.attrs["$binop"](self, op, a, b, node)
+                if r is not NotImplemented:
+                    return r
+        r = self._binop(op, a, b, node)
+        if self.normalize is not None and isinstance(r, T):
+            r = self.normalize(r)
+        return r
+
+    def _binop(self, op, a, b, node):
+        if isinstance(a, Ext) and a.name in _SYMPY_NUM:
+            a = _SYMPY_NUM[a.name]
+        if isinstance(b, Ext) and b.name in _SYMPY_NUM:
+            b = _SYMPY_NUM[b.name]
+        # a name without source (S.One, sympy.pi, ...) is an uninterpreted symbol in arithmetic, as in comparisons
+        if isinstance(a, Ext):
+            a = sym(a.name)
+        if isinstance(b, Ext):
+            b = sym(b.name)
         sa, sb = isinstance(a, T), isinstance(b, T)
         if isinstance(a, Obj):
             a, sa = a.term, True
@@ -650,6 +823,16 @@ class Symex:
             b, sb = b.term, True
         if sa or sb:
             if isinstance(op, ast.Add):
+                if isinstance(a, str) and isinstance(b, T) and b.op == "fstr" or isinstance(b, str) and isinstance(a, T) and a.op == "fstr" \
+                        or isinstance(a, T) and isinstance(b, T) and a.op == b.op == "fstr":
+                    parts = (list(a.args) if isinstance(a, T) else [a]) + (list(b.args) if isinstance(b, T) else [b])
+                    merged = []
+                    for x in parts:
+                        if isinstance(x, str) and merged and isinstance(merged[-1], str):
+                            merged[-1] += x
+                        else:
+                            merged.append(x)
+                    return T("fstr", *merged)
                 if isinstance(a, (str, list, tuple)) or isinstance(b, (str, list, tuple)):
                     return T("concat", a, b)
                 return t_add(a, b)
@@ -669,6 +852,19 @@ class Symex:
                 return t_div(a, b)
             if isinstance(a, float) or isinstance(b, float):
                 return a / b
+            if getattr(a, "_symexpr", False) or getattr(b, "_symexpr", False):
+                # model values of a rule that implement their own arithmetic
+                try:
+                    return a / b
+                except TypeError:
+                    self.unsupported(node, "division of unsupported values")
+            if hasattr(a, "sx_getattr") or hasattr(b, "sx_getattr"):      # rule-side number domain
+                try:
+                    return a / b
+                except ZeroDivisionError:
+                    raise Raised("ZeroDivisionError", None, node)
+                except TypeError:
+                    pass
             self.unsupported(node, "true division")
         if isinstance(op, ast.Pow) and is_num(a) and isinstance(b, int):
             return t_pow(a, b)
@@ -681,7 +877,43 @@ class Symex:
         except Exception:
             self.unsupported(node, f"arithmetic on {type(a).__name__}, {type(b).__name__}")
 
+    def _atom_compare(self, opname, a, b, node):
+        """Comparisons that involve an ``Atom`` and no symbolic term are decided by identity."""
+        if isinstance(a, T) or isinstance(b, T):
+            return NotImplemented
+        if opname in ("in", "not in"):
+            if not isinstance(a, Atom):
+                return NotImplemented
+            if isinstance(b, str):
+                raise Raised("TypeError", None, node)
+            if not isinstance(b, (dict, list, tuple, set, frozenset)) or any(isinstance(e, T) for e in b):
+                return NotImplemented
+            r = any(e is a for e in b)
+            return r if opname == "in" else not r
+        if opname in ("==", "!=", "is", "is not"):
+            return (a is b) if opname in ("==", "is") else (a is not b)
+        return NotImplemented
+
     def compare(self, opname, a, b, node):
+        # optional model of comparisons on abstract records: ``sx.compare_hook(sx, opname, a, b, node)``
+        h = getattr(self, "compare_hook", None)
+        if h is not None:
+            r = h(self, opname, a, b, node)
+            if r is not NotImplemented:
+                return r
+        if (isinstance(a, Ent) or isinstance(b, Ent)) and opname in ("==", "!=", "is", "is not") \
+                and not isinstance(a, T) and not isinstance(b, T):
+            return (a is b) if opname in ("==", "is") else (a is not b)
+        if isinstance(a, Ent) and opname in ("in", "not in"):
+            r = self.contains(b, a, node)
+            if isinstance(r, bool):
+                return r if opname == "in" else not r
+        if isinstance(a, Atom) and opname in ("in", "not in") and isinstance(b, (list, tuple, set, frozenset, dict)):
+            return any(e is a for e in b) == (opname == "in")
+        if isinstance(a, Atom) or isinstance(b, Atom):
+            r = self._atom_compare(opname, a, b, node)
+            if r is not NotImplemented:
+                return r
         if self.obj_identity and opname in ("is", "is not", "==", "!=") and (isinstance(a, Obj) or isinstance(b, Obj)) \
                 and all(isinstance(x, Obj) or _plain(x) for x in (a, b)):
             return (a is b) if opname in ("is", "==") else (a is not b)
@@ -695,7 +927,23 @@ class Symex:
             a = sym(a.name)
         if isinstance(b, Ext):
             b = sym(b.name)
-        if isinstance(a, Obj) and not (opname in ("is", "is not", "==", "!=") and isinstance(b, Obj)):
+        if opname in ("in", "not in") and isinstance(a, Obj) and a.attrs.get("_identity") and not isinstance(b, (T, Obj)):
+            r = self.contains(b, a, node)
+            if isinstance(r, bool):
+                return r if opname == "in" else not r
+        if opname in ("is", "is not") and (a is None or b is None) and isinstance(b if a is None else a, Obj) \
+                and (b if a is None else a).attrs.get("_identity"):
+            return opname == "is not"   # a record declared to be a distinct object is not None
+        if opname in ("in", "not in") and isinstance(a, Obj) and isinstance(b, (list, tuple, set, frozenset)) and \
+                all(isinstance(e, Obj) for e in b):
+            # an abstract record among abstract records: identity, as for ``==`` of two records
+            found = any(e is a for e in b)
+            return found if opname == "in" else not found
+        if opname in ("is", "is not") and ((isinstance(a, Obj) and b is None and a.attrs.get("$id")) or
+                                           (isinstance(b, Obj) and a is None and b.attrs.get("$id"))):
+            return opname == "is not"           # a record declared an individual ("$id") is never None
+        if isinstance(a, Obj) and not (opname in ("is", "is not", "==", "!=") and isinstance(b, Obj)) \
+                and not (opname in ("in", "not in") and a.attrs.get("$id")):
             a = a.term
         if isinstance(b, Obj) and not isinstance(a, Obj):
             b = b.term
@@ -705,6 +953,9 @@ class Symex:
                 return r if opname == "in" else t_not(r)
             return r if opname == "in" else not r
         if opname in ("is", "is not"):
+            if (a is None and isinstance(b, T) and b.op not in _MAYBE_NONE) or \
+                    (b is None and isinstance(a, T) and a.op not in _MAYBE_NONE):
+                return opname == "is not"       # an arithmetic / constructed value is never None
             if isinstance(a, T) or isinstance(b, T):
                 if a is None or b is None or isinstance(a, T) and isinstance(b, T):
                     if isinstance(a, T) and isinstance(b, T) and a == b:
@@ -713,6 +964,14 @@ class Symex:
                 return opname == "is not"
             same = a is b or (_plain(a) and _plain(b) and type(a) is type(b) and a == b)
             return same if opname == "is" else not same
+        if (isinstance(a, T) or isinstance(b, T)) and opname in ("==", "!=") and self.normalize is not None:
+            # with a rule-supplied normal form, equality of two constructed values is equality of their normal forms
+            if all(isinstance(x, T) and x.op not in _MAYBE_NONE or is_num(x) for x in (a, b)) and \
+                    not any(y.op in _MAYBE_NONE and y.op != "sym" for x in (a, b) if isinstance(x, T) for y in _subterms(x)):
+                d = self.normalize(t_sub(a, b))
+                if is_num(d):
+                    return (d == 0) == (opname == "==")
+                return opname == "!="
         if isinstance(a, T) or isinstance(b, T):
             if isinstance(a, T) and isinstance(b, T) and a == b and opname in ("==", "<=", ">="):
                 return True
@@ -734,11 +993,18 @@ class Symex:
             self.unsupported(node, "comparison of unsupported values")
 
     def contains(self, coll, x, node):
-        if self.obj_identity and isinstance(x, Obj) and isinstance(coll, (list, tuple, set, frozenset, dict)) \
-                and all(isinstance(e, Obj) or _plain(e) for e in coll):
+        if isinstance(coll, (list, tuple, set, frozenset, dict)) and (
+                isinstance(x, Atom) or (isinstance(x, Ent) or isinstance(x, Obj) and (x.attrs.get("_identity") or x.attrs.get("$id")))
+                and not any(isinstance(e, T) for e in coll)
+                or self.obj_identity and isinstance(x, Obj) and all(isinstance(e, Obj) or _plain(e) for e in coll)):
+            # records declared pairwise distinct / individuals: membership is decided by identity, not forked on
             return any(e is x for e in coll)
         if isinstance(coll, Obj):
             coll = coll.term
+        if isinstance(x, Obj) and isinstance(coll, (list, tuple, set, frozenset, dict)) and coll and \
+                all(isinstance(e, Obj) for e in coll):
+            # an abstract record among abstract records: decided by identity, as ``==`` between two records is
+            return any(e is x for e in coll)
         if isinstance(x, Obj):
             x = x.term
         if isinstance(coll, T):
@@ -757,6 +1023,8 @@ class Symex:
                 except TypeError:
                     self.unsupported(node)
             return t_or(*[self.compare("==", x, e, node) for e in elems])
+        if coll is None or is_num(coll) or isinstance(coll, bool):
+            raise Raised("TypeError", None, node)     # ``x in None`` / ``x in 3`` is a TypeError in Python
         self.unsupported(node, f"membership in {type(coll).__name__}")
 
     def ev(self, n):
@@ -791,10 +1059,15 @@ class Symex:
                 if isinstance(v, T):
                     return t_not(v)
                 return not self.truth(v, n.operand)
+            if isinstance(v, Obj) and callable(v.attrs.get("$binop")) and isinstance(n.op, ast.USub):
+                return self.binop(ast.Mult(), -1, v, n)     # rule-defined arithmetic: -x = (-1) * x
             if isinstance(v, Obj):
                 v = v.term
             if isinstance(n.op, ast.USub):
-                return t_neg(v) if isinstance(v, T) else -v
+                if isinstance(v, T):
+                    r = t_neg(v)
+                    return self.normalize(r) if self.normalize is not None and isinstance(r, T) else r
+                return -v
             if isinstance(n.op, ast.UAdd):
                 return v
             self.unsupported(n)
@@ -846,8 +1119,11 @@ class Symex:
                     x = self.ev(v.value)
                     if isinstance(x, Obj):
                         x = x.term
-                    if _plain(x) and v.format_spec is None and v.conversion == -1:
-                        parts.append(str(x))
+                    if _plain(x) and v.format_spec is None and v.conversion in (-1, 115, 114):
+                        parts.append(repr(x) if v.conversion == 114 else str(x))
+                    elif hasattr(x, "sx_str") and v.format_spec is None and v.conversion in (-1, 115) \
+                            and isinstance(x.sx_str(self), str):
+                        parts.append(x.sx_str(self))
                     else:
                         symbolic = True
                         parts.append(_freeze(x) if not isinstance(x, T) else x)
@@ -965,6 +1241,15 @@ class Symex:
                 r = self.attr_hook(self, obj, attr, node)
                 if r is not NotImplemented:
                     return r
+            ca = self.find_class_attr(obj.cls, attr) if obj.cls else None
+            if ca is not None:
+                # a constant defined in the class body (or a base class) read through the instance
+                saved = (self.frames, self.module)
+                self.frames, self.module = [{}], ca[1]
+                try:
+                    return self.ev(ca[0])
+                finally:
+                    self.frames, self.module = saved
             return T("attr", obj.term, attr)
         if isinstance(obj, T):
             if self.attr_hook is not None:
@@ -982,7 +1267,9 @@ class Symex:
             # class attribute
             c = obj.module.classes[obj.qual]
             for st in c.body:
-                if isinstance(st, ast.Assign) and any(isinstance(t, ast.Name) and t.id == attr for t in st.targets):
+                if isinstance(st, ast.Assign) and any(isinstance(t, ast.Name) and t.id == attr for t in st.targets) \
+                        or isinstance(st, ast.AnnAssign) and isinstance(st.target, ast.Name) and st.target.id == attr \
+                        and st.value is not None:
                     saved = (self.frames, self.module)
                     self.frames, self.module = [{}], obj.module
                     try:
@@ -1000,7 +1287,42 @@ class Symex:
             return getattr(obj, attr)
         if isinstance(obj, Func) and attr == "__name__":
             return getattr(obj.node, "name", "<lambda>")
+        if hasattr(obj, "sx_getattr"):
+            return obj.sx_getattr(self, attr, node)
+        if obj is None:
+            raise Raised("AttributeError", f"'NoneType' object has no attribute '{attr}'", node)
+        if self.attr_hook is not None:
+            # model values supplied by a rule (hooks may return arbitrary python objects)
+            r = self.attr_hook(self, obj, attr, node)
+            if r is not NotImplemented:
+                return r
         self.unsupported(node, f"attribute {attr} of {type(obj).__name__}")
+
+    def find_class_attr(self, clsref, name, _depth=0):
+        """(value node, module) of ``name = <value>`` in the body of the class or of a base class of the library."""
+        mod, _, q = clsref.partition(":")
+        if _depth > 8 or mod not in self.model.modules or q not in self.model.modules[mod].classes:
+            return None
+        m = self.model.modules[mod]
+        c = m.classes[q]
+        for st in c.body:
+            if isinstance(st, ast.Assign) and any(isinstance(t, ast.Name) and t.id == name for t in st.targets):
+                return st.value, m
+            if isinstance(st, ast.AnnAssign) and isinstance(st.target, ast.Name) and st.target.id == name \
+                    and st.value is not None:
+                return st.value, m
+        for b in c.bases:
+            bname = U(b).split(".")[-1]
+            if bname in m.classes:
+                r = self.find_class_attr(f"{mod}:{bname}", name, _depth + 1)
+            elif bname in m.imports:
+                v = self.resolve_import(m, m.imports[bname], bname)
+                r = self.find_class_attr(f"{v.module.name}:{v.qual}", name, _depth + 1) if isinstance(v, ClassRef) else None
+            else:
+                r = None
+            if r is not None:
+                return r
+        return None
 
     def find_method(self, clsref, name, _seen=None):
         mod, _, q = clsref.partition(":")
@@ -1087,7 +1409,9 @@ class Symex:
             key = f"{recv.cls.split(':')[-1]}.{name}" if recv.cls else name
             for hk in (key, name):
                 if hk in self.hooks and callable(self.hooks[hk]):
-                    return self.hooks[hk](self, [recv] + list(args), kw)
+                    r = self.hooks[hk](self, [recv] + list(args), kw)
+                    if r is not NotImplemented:
+                        return r
             if name in recv.attrs:
                 return self.call_value(recv.attrs[name], args, kw, node)
             m = self.find_method(recv.cls, name) if recv.cls else None
@@ -1096,6 +1420,11 @@ class Symex:
                 decos = [U(d).split(".")[-1].split("(")[0] for d in fn.decorator_list]
                 bound = None if "staticmethod" in decos else recv
                 return self.call_value(Func(fn, [], fn._module, fn._qual, bound=bound), args, kw, node)
+            if self.attr_hook is not None:
+                # the attribute model of a record also resolves its methods (a callable attribute)
+                r = self.attr_hook(self, recv, name, node)
+                if r is not NotImplemented:
+                    return self.call_value(r, args, kw, node)
             return self.opaque_mcall(recv.term, name, args, kw)
         if isinstance(recv, T):
             hk = name
@@ -1111,13 +1440,23 @@ class Symex:
             if name == "__floor__":
                 import math
                 return math.floor(recv)
+            if name in self.hooks and callable(self.hooks[name]):
+                # a modelled method (e.g. sympy's ``expand``) on a value the scenario represents by a number
+                r = self.hooks[name](self, [recv] + list(args), kw)
+                if r is not NotImplemented:
+                    return r
         v = self.getattr(recv, name, node)
         return self.call_value(v, args, kw, node)
+
+    def _occ(self, name, t):
+        if self.occurrence is not None and self.occurrence(name):
+            return T("occ", t, len(self.effects))
+        return t
 
     def opaque_mcall(self, recv, name, args, kw):
         t = T("mcall", recv, name, tuple(_freeze(a) for a in args), tuple(sorted((k, _freeze(v)) for k, v in kw.items())))
         self.effects.append(t)
-        return t
+        return self._occ(name, t)
 
     def opaque_call(self, name, args, kw, fn=None, skip_self=False):
         if fn is not None:
@@ -1129,7 +1468,7 @@ class Symex:
         else:
             t = T("call", name, tuple(_freeze(a) for a in args), tuple(sorted((k, _freeze(v)) for k, v in kw.items())))
         self.effects.append(t)
-        return t
+        return self._occ(name.split(".")[-1], t)
 
     def call_value(self, fv, args, kw, node):
         if isinstance(fv, Func):
@@ -1152,7 +1491,7 @@ class Symex:
                 t = T("mcall", b.term if isinstance(b, Obj) else b, short, (),
                       tuple((k, _freeze(v)) for k, v in self.bind(fv.node, args, kw, True, True, True).items()))
                 self.effects.append(t)
-                return t
+                return self._occ(short, t)
             return self.opaque_call(name, args, kw, fv.node)
         if isinstance(fv, ClassRef):
             for hk in (f"{fv.module.name}:{fv.qual}", fv.short):
@@ -1235,6 +1574,9 @@ class Symex:
         fn = f.node
         self.depth += 1
         if self.depth > self.max_depth:
+            if self.recursion_error:
+                self.depth -= 1
+                raise Raised("RecursionError", f"call depth {self.max_depth} exceeded", node)
             self.unsupported(node, "inlining depth exceeded")
         saved = (self.frames, self.module)
         try:
@@ -1260,7 +1602,7 @@ class Symex:
                 frame = self.bind(fn, a, kw)
             self.frames, self.module = list(f.frames) + [frame], f.module
             is_gen = getattr(fn, "_sx_is_gen", None)
-            if is_gen is None:      # cached on the node: the walk dominated concrete evaluations
+            if is_gen is None:   # cached on the node: the walk dominates the cost of small inlined helpers
                 is_gen = fn._sx_is_gen = any(isinstance(x, (ast.Yield, ast.YieldFrom)) for x in _walk_noscope(fn))
             try:
                 self.block(fn.body)
@@ -1285,6 +1627,10 @@ class Symex:
             return self.isinstance(args[0], args[1], node)
         if name == "print":
             return None
+        if name == "str" and len(args) == 1 and not kw and hasattr(args[0], "sx_str"):
+            r = args[0].sx_str(self)
+            if isinstance(r, str):
+                return r
         if name == "getattr":
             if isinstance(args[1], str):
                 try:
@@ -1315,7 +1661,29 @@ class Symex:
             for x in self.iterate(args[0], node):
                 out.extend(self.iterate(x, node))
             return out
-        if name in ("chain",) and all(not isinstance(a, T) for a in args):
+        if name == "dict.fromkeys" and len(args) in (1, 2) and not isinstance(args[0], T):
+            return {k: (args[1] if len(args) == 2 else None) for k in self.iterate(args[0], node)}
+        if short == "reduce" and len(args) in (2, 3) and not isinstance(args[1], T):
+            seq = list(self.iterate(args[1], node))
+            if len(args) == 3:
+                acc = args[2]
+            elif seq:
+                acc, seq = seq[0], seq[1:]
+            else:
+                raise Raised("TypeError", None, node)
+            for x in seq:
+                acc = self.call_value(args[0], [acc, x], {}, node)
+            return acc
+        if short == "prod" and len(args) >= 1 and not isinstance(args[0], T):
+            acc = args[1] if len(args) > 1 else kw.get("start", 1)
+            for x in self.iterate(args[0], node):
+                acc = self.binop(ast.Mult(), acc, x, node)
+            return acc
+        if name in _OPERATOR and len(args) == 2:
+            return self.binop(_OPERATOR[name](), args[0], args[1], node)
+        if name in ("operator.neg", "neg") and len(args) == 1:
+            return self.binop(ast.Mult(), -1, args[0], node)
+        if name in ("chain", "itertools.chain") and all(not isinstance(a, T) for a in args):
             out = []
             for x in args:
                 out.extend(self.iterate(x, node))
@@ -1351,10 +1719,15 @@ class Symex:
                 return args[1]
             raise Raised("StopIteration", None, node)
         if name == "Counter" and len(args) <= 1 and not any(_has_sym(a) for a in args):
-            c = {}
+            c = _Counter()
             for x in (self.iterate(args[0], node) if args else []):
                 c[x] = c.get(x, 0) + 1
             return c
+        if name == "dict.fromkeys" and 1 <= len(args) <= 2 and not kw and not isinstance(args[0], (T, Obj)):
+            try:
+                return {k: (args[1] if len(args) > 1 else None) for k in self.iterate(args[0], node)}
+            except TypeError:
+                self.unsupported(node, "dict.fromkeys with unhashable keys")
         if name == "defaultdict" and not args[1:]:
             return _DefaultDict(args[0] if args else None, self, node)
         if name in _BUILTINS:
@@ -1363,7 +1736,8 @@ class Symex:
                 kw = dict(kw)
                 kw["key"] = lambda v, k=k: self.call_value(k, [v], {}, node)
             conv = [self.iterate(a, node) if isinstance(a, (T, Obj)) and name in
-                    ("list", "tuple", "enumerate", "zip", "set", "sorted", "reversed", "sum", "min", "max") else a for a in args]
+                    ("list", "tuple", "enumerate", "zip", "set", "sorted", "reversed", "sum", "min", "max")
+                    and not (name in ("min", "max") and len(args) > 1) else a for a in args]
             if name == "zip":
                 lens = [len(c) for c, a in zip(conv, args) if not isinstance(a, (T, Obj))]
                 if lens:
@@ -1424,6 +1798,8 @@ class Symex:
                 if r is not None:
                     return r
             return T("isinstance", obj, cname)
+        if hasattr(obj, "sx_isinstance"):
+            return obj.sx_isinstance(self, cname)
         py = {"int": int, "str": str, "list": list, "tuple": tuple, "dict": dict, "set": set, "float": float,
               "bool": bool, "frozenset": frozenset}
         if cname in py:
@@ -1458,9 +1834,9 @@ class Symex:
             pass
         if isinstance(o, dict):
             if attr == "items":
-                return list(o.items())
+                return _ItemsView(o.items())
             if attr == "keys":
-                return list(o.keys())
+                return _KeysView(o.keys())
             if attr == "values":
                 return list(o.values())
             if attr == "get":
@@ -1514,6 +1890,8 @@ class Symex:
                     return getattr(o, attr)(*a)
                 except (IndexError, ValueError):
                     raise Raised("IndexError" if attr == "pop" else "ValueError", None, node)
+                except TypeError:
+                    raise Raised("TypeError", None, node)
         if isinstance(o, tuple):
             if attr == "count":
                 return sum(1 for y in o if _eq(y, a[0]))
@@ -1563,6 +1941,72 @@ class Symex:
         self.unsupported(node, f"method {attr} of {type(o).__name__}")
 
 
+class _ItemsView(list):
+    """``dict.items()``: a list for iteration, a set for the order comparisons (``a.items() <= b.items()``)."""
+
+    def _has(self, x):
+        return any(_eq(k, k2) and _eq(v, v2) for k2, v2 in self for k, v in (x,))
+
+    def __le__(self, o):
+        return all(o._has(x) for x in self) if isinstance(o, _ItemsView) else list.__le__(self, o)
+
+    def __ge__(self, o):
+        return o.__le__(self) if isinstance(o, _ItemsView) else list.__ge__(self, o)
+
+    def __lt__(self, o):
+        return self.__le__(o) and not o.__le__(self) if isinstance(o, _ItemsView) else list.__lt__(self, o)
+
+    def __gt__(self, o):
+        return o.__lt__(self) if isinstance(o, _ItemsView) else list.__gt__(self, o)
+
+    def __eq__(self, o):
+        return self.__le__(o) and o.__le__(self) if isinstance(o, _ItemsView) else list.__eq__(self, o)
+
+    def __ne__(self, o):
+        return not self.__eq__(o)
+
+    __hash__ = None
+
+
+
+class _KeysView(list):
+    """``dict.keys()``: a list for iteration/indexing by the evaluator, compared like a set with other views/sets."""
+    __hash__ = None
+
+    def _setlike(self, o):
+        return isinstance(o, (_KeysView, set, frozenset))
+
+    def __eq__(self, o):
+        if self._setlike(o):
+            return len(set(self)) == len(set(o)) and all(k in o for k in self)
+        return list.__eq__(self, o)
+
+    def __ne__(self, o):
+        r = self.__eq__(o)
+        return r if r is NotImplemented else not r
+
+    def __le__(self, o):
+        return all(k in o for k in self) if self._setlike(o) else list.__le__(self, o)
+
+    def __ge__(self, o):
+        return all(k in self for k in o) if self._setlike(o) else list.__ge__(self, o)
+
+    def __lt__(self, o):
+        return (self.__le__(o) and not self.__eq__(o)) if self._setlike(o) else list.__lt__(self, o)
+
+    def __gt__(self, o):
+        return (self.__ge__(o) and not self.__eq__(o)) if self._setlike(o) else list.__gt__(self, o)
+
+    def __and__(self, o):
+        return {k for k in self if k in o}
+
+    def __or__(self, o):
+        return set(self) | set(o)
+
+    def __sub__(self, o):
+        return {k for k in self if k not in o}
+
+
 class _DefaultDict(dict):
     def __init__(self, factory, sx, node):
         super().__init__()
@@ -1585,6 +2029,13 @@ class _DefaultDict(dict):
         for k, v in self.items():
             dict.__setitem__(c, k, copy.deepcopy(v, memo))
         return c
+
+
+class _Counter(dict):
+    """collections.Counter: a missing key reads as 0 and is not stored."""
+
+    def __missing__(self, k):
+        return 0
 
 
 def _eq(a, b):
@@ -1619,6 +2070,8 @@ def _freeze(v):
         return sym(v.name)
     if isinstance(v, slice):
         return T("slice_", v.start, v.stop, v.step)
+    if hasattr(v, "sx_term"):
+        return v.sx_term()
     return v
 
 
@@ -1648,6 +2101,9 @@ _BIN = {ast.Add: operator.add, ast.Sub: operator.sub, ast.Mult: operator.mul, as
         ast.BitXor: operator.xor, ast.LShift: operator.lshift, ast.RShift: operator.rshift}
 
 _BUILTIN_CONST = {"True": True, "False": False, "None": None}
+_SYMPY_NUM = {"S.One": 1, "S.Zero": 0, "S.NegativeOne": -1, "S.Half": Fraction(1, 2)}
+_OPERATOR = {"operator.add": ast.Add, "operator.sub": ast.Sub, "operator.mul": ast.Mult, "operator.truediv": ast.Div,
+             "operator.pow": ast.Pow, "operator.iadd": ast.Add, "operator.imul": ast.Mult}
 _TYPE_NAMES = {"int", "str", "list", "tuple", "dict", "set", "float", "bool", "frozenset", "NoneType"}
 
 _BUILTINS = {
